@@ -137,6 +137,98 @@ end Glom.C11
 namespace Glom.C11
 open Glom Glom.Mut
 
+/-! ### which cell a primitive replaces (for the event log) -/
+
+/-- the cell a successful primitive replaced, if any, is the destination's -/
+def CellAt (w : Wr) (dest : Val) : Prop := w.cell = none ∨ ∃ a, dest = .ref a ∧ w.cell = some a
+
+theorem pySetitem_cell {env h dest key v w} (hh : pySetitem env h dest key v = .ok w) : CellAt w dest := by
+  unfold pySetitem at hh
+  repeat' split at hh
+  all_goals first
+    | contradiction
+    | (injection hh with hh; subst hh; first | exact .inl rfl | exact .inr ⟨_, rfl, rfl⟩)
+
+theorem pySetattr_cell {env h dest name v w} (hh : pySetattr env h dest name v = .ok w) : CellAt w dest := by
+  unfold pySetattr at hh
+  repeat' split at hh
+  all_goals first
+    | contradiction
+    | (injection hh with hh; subst hh; first | exact .inl rfl | exact .inr ⟨_, rfl, rfl⟩)
+
+theorem pySetSeqItem_cell {env h dest idx v w} (hh : pySetSeqItem env h dest idx v = .ok w) : CellAt w dest := by
+  unfold pySetSeqItem at hh
+  split at hh
+  · exact pySetitem_cell hh
+  · contradiction
+
+theorem refAssignOp_cell {env h op dest arg v w}
+    (hh : refAssignOp env h op dest arg v = some (.ok w)) : CellAt w dest := by
+  unfold refAssignOp at hh
+  split at hh
+  · injection hh with hh; exact pySetitem_cell hh
+  · split at hh
+    · injection hh with hh; exact pySetattr_cell hh
+    · split at hh
+      · cases hn : nearestHandler env.t.ct env.assignReg (dest.clsName h) with
+        | none => simp [hn] at hh
+        | some n =>
+          simp [hn] at hh
+          unfold applyAssignHandler at hh
+          split at hh
+          · exact pySetitem_cell hh
+          · split at hh
+            · exact pySetSeqItem_cell hh
+            · split at hh
+              · exact pySetattr_cell hh
+              · contradiction
+      · contradiction
+
+/-- the event touches only a cell at or above `base` (a cell created during this call) -/
+def evNew (base : Nat) : Ev → Prop
+  | .alloc a => base ≤ a
+  | .write a => base ≤ a
+
+/-- `l'` extends `l` by events on cells at or above `base` -/
+def LogExt (base : Nat) (l l' : List Ev) : Prop := ∃ evs, l' = l ++ evs ∧ ∀ ev ∈ evs, evNew base ev
+
+theorem LogExt.refl (base : Nat) (l : List Ev) : LogExt base l l := ⟨[], by simp, by simp⟩
+
+theorem evNew_mono {b1 b2 : Nat} (hb : b1 ≤ b2) {ev : Ev} (h : evNew b2 ev) : evNew b1 ev := by
+  cases ev <;> simp only [evNew] at h ⊢ <;> omega
+
+theorem LogExt.trans {b1 b2 : Nat} {l1 l2 l3 : List Ev} (h1 : LogExt b1 l1 l2) (h2 : LogExt b2 l2 l3)
+    (hb : b1 ≤ b2) : LogExt b1 l1 l3 := by
+  obtain ⟨e1, rfl, he1⟩ := h1
+  obtain ⟨e2, rfl, he2⟩ := h2
+  refine ⟨e1 ++ e2, by simp, ?_⟩
+  intro ev hev
+  rcases List.mem_append.1 hev with h | h
+  · exact he1 ev h
+  · exact evNew_mono hb (he2 ev h)
+
+theorem LogExt.snoc {base : Nat} {l l' : List Ev} (h : LogExt base l l') {ev : Ev} (hev : evNew base ev) :
+    LogExt base l (l' ++ [ev]) := by
+  obtain ⟨e1, rfl, he1⟩ := h
+  refine ⟨e1 ++ [ev], by simp, ?_⟩
+  intro x hx
+  rcases List.mem_append.1 hx with h | h
+  · exact he1 x h
+  · simp at h; subst h; exact hev
+
+/-- the log after recording a successful primitive on the cell at `a` -/
+theorem wrote_log {st : St} {w : Wr} {a : Nat} (hc : CellAt w (.ref a)) :
+    (st.wrote w).log = st.log ∨ (st.wrote w).log = st.log ++ [.write a] := by
+  rcases hc with h | ⟨b, hb, h⟩
+  · left; simp [St.wrote, h]
+  · right; injection hb with hb; subst hb; simp [St.wrote, h]
+
+theorem wrote_logExt {base : Nat} {st : St} {w : Wr} {a : Nat} {l : List Ev} (hc : CellAt w (.ref a))
+    (ha : base ≤ a) (h : LogExt base l st.log) : LogExt base l (st.wrote w).log := by
+  rcases wrote_log (st := st) hc with h1 | h1
+  · rw [h1]; exact h
+  · rw [h1]; exact h.snoc (by simpa [evNew] using ha)
+
 /-! ### Part B: `_assign_op` (table-driven) is the assignment the step denotes -/
 
 theorem WF_parts {env : MEnv} (h : WF env = true) :
